@@ -49,8 +49,10 @@ CLAIMS.update({
         text='Partial claim. Decides: every entry of bs_prod(a,b) equals sum_i a.x_i b.z_i + a.z_i b.x_i mod 2 as '
              'a polynomial identity, for dense arrays, lists and sparse rows, 1-D and 2-D operands, including '
              'overlaps >= 2 and equal arguments (so bilinearity, symmetry, omega(a,a)=0 and linearity of the '
-             'syndrome follow for all sizes); all 25 Pauli<->bits converter instances agree on I,X,Y,Z = '
-             '00,10,11,01; measure_syndrome is that product with H. Not decided: integer round trips, brank.',
+             'syndrome follow for all sizes); all 30 Pauli<->bits converter instances agree on I,X,Y,Z = '
+             '00,10,11,01, sparse rows in every storage layout scipy allows (unsorted column indices, explicitly stored '
+             'zeros); integer converters inverse incl. 80-bit vectors; measure_syndrome is that product with H; products and '
+             'converters never modify or annotate their arguments (effect analysis). Not decided: brank.',
         note=TRUST + 'numpy dot/slicing/reshape semantics are used on symbolic object arrays; uint8 wrap '
                      'preserves parity.',
         ref='DESIGN.md section 3, C03'),
@@ -76,7 +78,9 @@ CLAIMS.update({
              'name; for Matching (3 configurations), BP-OSD (CSS/non-CSS, channel update on/off), union-find and both '
              'sweep-match decoders every solver is built on a check matrix of the code, gets the syndrome of the same '
              'rows, and its result lands in the half it corrects; decode returns a length-2n [X|Z] vector; the two '
-             'tie-break draws are converted to scalars without raising. Not decided: that PyMatching / ldpc / the '
+             'tie-break draws are converted to scalars without raising; no memoised function keyed on a code object reads '
+             'what deform() changes on it; the XCube matching decoder uses every lattice extent for the axis it belongs to '
+             '(extents replaced by axis letters, evaluated per projection axis). Not decided: that PyMatching / ldpc / the '
              'union-find implementation actually solve H c = s (quantifies over solver output).',
         note=TRUST + 'XCubeMatchingDecoder and MBP are outside the pairing rule (DESIGN.md C05).',
         ref='DESIGN.md section 3, C05'),
@@ -130,7 +134,9 @@ CLAIMS.update({
         text='Decides: every registry key is the name of its class and register_* use the class\'s own name; '
              'expand_input_ranges and get_simulations yield exactly the Cartesian product (2x3x2x5 tagged spec, dict '
              'and list parameter forms, list of ranges, explicit runs), each object built from its own parameters and '
-             'each decoder with its simulation\'s code/noise/rate; params of all 26 code/decoder/noise classes report '
+             'each decoder with its simulation\'s code/noise/rate (for the splitting method: decoder i stays with '
+             'error_rates[i] whatever the order of the rates); a name registered again is rebound; expanding the same '
+             'specification object twice gives the same simulations; params of all 26 code/decoder/noise classes report '
              'exactly the constructor arguments; recorded inputs name id/params of the held objects. Value-level '
              'equality of re-instantiated objects is not decided.',
         note=TRUST,
@@ -171,6 +177,9 @@ CLAIMS.update({
              'noise, decoder, rate); loading assigns (never extends) own keys; every trial is run(1) under n_results < '
              'n_trials, all simulations end at exactly the target and the last save follows the last trial (54 '
              'configurations of target/loaded counts/save frequency); interrupted saves are repeated and re-raised. '
+             'The destination is never deleted before the replace; for both simulation classes the record a fresh object '
+             'writes is recognised again after a JSON round trip and every list the trial loop appends to is still a list '
+             'after loading; nothing reachable from a memoised function reads files. '
              'Not decided: byte-offset crash enumeration (os.replace atomicity is trusted).',
         note=TRUST,
         ref='DESIGN.md section 3, C12'),
